@@ -165,7 +165,8 @@ class Contract:
                  ghost_vars=None, requires=(), ensures=(), loops=None, hooks=(), yields=(), count=None,
                  raises=None, uses=(), lemmas=(), calls=None, serves=(), pure=False, trusted=False, notes="",
                  closure=None, self_type=None, modifies=(), effects=None, coerce=None,
-                 export_lemmas=True, is_property=False, locals=None, frame_check=True):
+                 export_lemmas=True, is_property=False, locals=None, frame_check=True, static=False,
+                 returns_expr=None, ghost_returns=None, value_self=False, binds=None):
         self.qualname = qualname
         self.params = params                      # dict name -> T (in signature order)
         self.returns = returns
@@ -196,6 +197,11 @@ class Contract:
         self.is_property = is_property
         self.locals = locals or {}          # local variable -> T (element shape of lists that start empty)
         self.frame_check = frame_check
+        self.static = static                # @staticmethod: no receiver
+        self.returns_expr = returns_expr    # the result is this existing object (alias), e.g. 'self._categories'
+        self.value_self = value_self        # `self` is a record by value that the method updates (constructor / setter)
+        self.ghost_returns = ghost_returns or {}
+        self.binds = binds or {}            # 'self.field' -> spec text: the field holds exactly this value on return   # ghost outputs (name -> sort) a caller may bind with a hook 'x = ghost(name)'
 
 
 REGISTRY = {}
@@ -214,3 +220,21 @@ def lemma(name, statement, **kw):
     lem = Lemma(name, statement, **kw)
     LEMMAS[name] = lem
     return lem
+
+
+GLOBAL_GHOSTS = {}
+
+
+class GlobalGhost:
+    """a ghost function shared by all contracts (parametrised by the arrays it talks about), with defining axioms"""
+
+    def __init__(self, name, sig, axioms):
+        g = GhostFun(name, sig)
+        self.name, self.arg_sorts, self.ret_sort = name, g.arg_sorts, g.ret_sort
+        self.axioms = [Clause(a) for a in axioms]
+        self.decl = None
+
+
+def global_ghost(name, sig, axioms=()):
+    GLOBAL_GHOSTS[name] = GlobalGhost(name, sig, axioms)
+    return GLOBAL_GHOSTS[name]
